@@ -38,7 +38,8 @@ def rem_class(r: fb.Rng):
     if k < 6:
         return fb.Q * r.below(16) / 16.0
     if k == 6:
-        return r.logu(1e-18, 1e-8)
+        # tiny remainders, and the small-but-not-tiny band 1e-8..0.1 where small-angle shortcuts (sin x ~ x, cos x ~ 1 - x^2/2) go wrong
+        return r.logu(1e-18, 1e-8) if r.chance(0.5) else r.logu(1e-8, 0.1)
     return r.uniform(0.0, fb.Q - 2e-10)
 
 def blade_class(r: fb.Rng, big=True):
@@ -80,7 +81,7 @@ def geo_pair(P, r: fb.Rng, zero_ok=True, big=True, rel=None):
     elif rel == 'opposite':
         ab = P.add(r.choice(['ANeg', 'ADual', 'AConj']), aa)
     elif rel in ('near-par', 'near-opp'):
-        d = r.choice([1e-15, 2e-15, 1e-14, 1e-12, 1e-10, 2e-10, 1e-9, 1e-8, 1e-6, 3e-16]) * r.choice([1, -1])
+        d = r.choice([1e-15, 2e-15, 1e-14, 1e-12, 1e-10, 2e-10, 1e-9, 1e-8, 1e-6, 3e-16, 1e-5, 1e-4, 1e-3, 5e-3, 9e-3, 2e-2, 4.9e-2, r.logu(1e-7, 0.1)]) * r.choice([1, -1])
         rb = min(max(ra + d, 0.0), fb.Q - 2e-10)
         if rb == ra: rb = min(ra + abs(d), fb.Q - 2e-10)
         extra = r.choice([0, 4, 8, 4 * 250000]) + (2 if rel == 'near-opp' else 0)
